@@ -28,7 +28,7 @@ type World struct {
 
 // NewWorld creates a world with nMiners miner keys and a default price table.
 func NewWorld(e Eras, seed int64, nMiners int) *World {
-	w := &World{Eras: e, Chain: NewChain(e), Rng: rand.New(rand.NewSource(seed)), T0: time.Unix(1600000000, 0).UTC(), Prices: map[string]uint64{}, Specs: map[uint32]BlockSpec{}, Seqs: map[uint32]uint32{}}
+	w := &World{Eras: e, Chain: NewChain(e), Rng: rand.New(rand.NewSource(seed)), T0: time.Unix(1600000200, 0).UTC(), Prices: map[string]uint64{}, Specs: map[uint32]BlockSpec{}, Seqs: map[uint32]uint32{}}
 	for i := 0; i < nMiners; i++ {
 		w.Miners = append(w.Miners, NewKey(fmt.Sprintf("miner-%d-%d", seed, i)))
 	}
